@@ -41,6 +41,12 @@ def parse_f64(vm, s):
     if isinstance(s, BStr):
         h = getattr(vm, 'parse_f64_hook', None)
         if h is not None: return h(vm, s)
+        # characters drawn from small finite domains: split on their values (solver-checked forks) and parse the text
+        cs = s.chars()
+        if all(isinstance(c, int) or (vm.domains.get(c.get_id()) is not None and len(vm.domains[c.get_id()]) <= 8) for c in cs):
+            txt = ''.join(chr(c if isinstance(c, int) else vm.concretize(c)) for c in cs)
+            v = rust_parse_f64(txt)
+            return ok(v) if v is not None else err(Adt('ParseFloatError', 0, []))
         # uninterpreted per (buffer, span): functional within one path
         key = (s.buf.id, s.start, s.end)
         okv = z3.Bool(f'parse_ok@{key}'); val = z3.FP(f'parse_val@{key}', F64)
